@@ -95,6 +95,11 @@ def regenerate():
 
 # ============================================================================ guard table (C20)
 def strip_rust_comments(s):
+    s = _strip_comments_only(s)
+    # statements / items guarded by the verification hook flag are not part of the code under verification
+    return re.sub(r"#\[cfg\(ohsl_verif\)\]\s*[^;{}]*;", "", s)
+
+def _strip_comments_only(s):
     out, i, n = [], 0, len(s)
     while i < n:
         if s.startswith("//", i):
